@@ -8,7 +8,7 @@ EXPLANATION = ("Bounded symbolic execution of the MIR of VisualMetric::optimize 
                "VisualAttributes::update_history), SortMetric::optimize (+ SortAttributes::update_history) and the track -> "
                "record conversions, with z3 deciding every branch. One optimisation step is executed from an ARBITRARY valid "
                "gallery / history (inductive step; the first observation is the base case), so lifetimes of any length are "
-               "covered by the invariant: at most visual_max_observations stored features, newest observation first, evicted "
+               "covered by the invariant: at most visual_max_observations stored features, arriving observation stored with the prediction, evicted "
                "entry of minimal quality, the feature of a continuing detection kept only if it meets the collect thresholds, "
                "reported count = number of stored features; histories = the most recent min(length, history) entries in arrival "
                "order; the records echo the LAST entries. Kalman prediction is uninterpreted (C07).")
@@ -117,12 +117,17 @@ def _mk_gallery(k, maxobs, is_merge, kind, hist0, H):
         nfeat = sum(1 for ob in out if ob.fields[1].variant == 1)
         vm.check(BOOL(nfeat <= maxobs), "at most visual_max_observations features are stored")
         vm.check(BOOL(len(out) <= max(maxobs, 1)), "at most visual_max_observations observations are stored")
-        # ---- 2. the newest observation is first and carries the prediction
-        vm.check(BOOL(len(out) >= 1), "the arriving observation is stored")
-        a0, f0 = parts(out[0])
-        vm.check(f_eq(fld(P, a0, 'VisualObservationAttributes', 'visual_quality'), qn), "index 0 holds the arriving observation (quality)")
+        # ---- 2. the arriving observation is stored, carries the prediction and is the only one with a box
+        #         (WHERE in the vector it sits is an internal convention between Track and the metric, not checked)
+        with_box = [k for k, ob in enumerate(out) if fld(P, parts(ob)[0], 'VisualObservationAttributes', 'bbox').variant == 1]
+        vm.check(BOOL(len(with_box) == 1), "exactly one stored observation carries a box: the arriving one")
+        if len(with_box) != 1:
+            return
+        new_at = with_box[0]
+        a0, f0 = parts(out[new_at])
+        vm.check(f_eq(fld(P, a0, 'VisualObservationAttributes', 'visual_quality'), qn), "the observation carrying the box is the arriving one (quality)")
         b0 = fld(P, a0, 'VisualObservationAttributes', 'bbox')
-        vm.check(BOOL(b0.variant == 1 and _is_marker(b0.fields[0], 777)), "index 0 carries the predicted box")
+        vm.check(BOOL(b0.variant == 1 and _is_marker(b0.fields[0], 777)), "the arriving observation carries the predicted box")
         own0 = fld(P, a0, 'VisualObservationAttributes', 'own_area_percentage')
         vm.check(BOOL(own0.variant == (1 if has_own else 0)), "own-area share of the arriving observation is kept")
         collectable = z3.And(f_ge(qn, o['visual_minimal_quality_collect']), f_ge(area, o['visual_minimal_area']),
@@ -136,7 +141,9 @@ def _mk_gallery(k, maxobs, is_merge, kind, hist0, H):
         # ---- 3./4. old entries: survivors keep quality and feature, lose their box; at most one evicted, of minimal quality
         with_f = [x for x in old if x['feat'] is not None]
         survivors = []
-        for ob in out[1:]:
+        for k_, ob in enumerate(out):
+            if k_ == new_at:
+                continue
             a, f = parts(ob)
             vm.check(BOOL(f.variant == 1), "stored old observations all carry features")
             tagv = f.fields[0].items[0].tag if f.variant == 1 else None
@@ -326,15 +333,17 @@ fn gallery_lifetime(maxobs: usize, min_len: usize, history: usize, iou: bool, co
         let feats = obs.iter().filter(|o| o.feature().is_some()).count();
         assert!(feats <= maxobs, "at most visual_max_observations features stored: {} ({} step {})", feats, ctx, step);
         assert_eq!(attrs.visual_features_collected_count, feats, "reported count = stored features ({} step {})", ctx, step);
-        assert_eq!(obs[0].attr().as_ref().unwrap().visual_quality(), q, "newest observation first ({} step {})", ctx, step);
-        assert!(obs[0].attr().as_ref().unwrap().bbox_opt().is_some(), "newest observation carries the predicted box ({} step {})", ctx, step);
-        assert_eq!(obs[0].feature().is_some(), stored_f, "feature stored exactly when present and collectable ({} step {})", ctx, step);
-        let mut got: Vec<f32> = obs[1..].iter().map(|o| o.attr().as_ref().unwrap().visual_quality()).collect();
+        let boxed: Vec<usize> = (0..obs.len()).filter(|i| obs[*i].attr().as_ref().unwrap().bbox_opt().is_some()).collect();
+        assert_eq!(boxed.len(), 1, "exactly one stored observation carries a box: the arriving one ({} step {})", ctx, step);
+        let at = boxed[0];
+        assert_eq!(obs[at].attr().as_ref().unwrap().visual_quality(), q, "the arriving observation is stored ({} step {})", ctx, step);
+        assert_eq!(obs[at].feature().is_some(), stored_f, "feature stored exactly when present and collectable ({} step {})", ctx, step);
+        let mut got: Vec<f32> = obs.iter().enumerate().filter(|(i, _)| *i != at).map(|(_, o)| o.attr().as_ref().unwrap().visual_quality()).collect();
         let mut exp: Vec<f32> = model.iter().map(|m| m.0).collect();
         got.sort_by(|a, b| a.partial_cmp(b).unwrap());
         exp.sort_by(|a, b| a.partial_cmp(b).unwrap());
         assert_eq!(got, exp, "stored features = previous gallery minus the lowest-quality entry when full ({} step {})", ctx, step);
-        assert!(obs[1..].iter().all(|o| o.feature().is_some() && o.attr().as_ref().unwrap().bbox_opt().is_none()), "old entries keep features, drop boxes ({} step {})", ctx, step);
+        assert!(obs.iter().enumerate().all(|(i, o)| i == at || (o.feature().is_some() && o.attr().as_ref().unwrap().bbox_opt().is_none())), "old entries keep features, drop boxes ({} step {})", ctx, step);
         let n = (step as usize + 1).min(if history == 0 { usize::MAX } else { history });
         assert_eq!((attrs.observed_boxes.len(), attrs.predicted_boxes.len(), attrs.observed_features.len()), (n, n, n), "history lengths ({} step {})", ctx, step);
         assert_eq!(attrs.track_length, step as usize + 1);
